@@ -103,6 +103,7 @@ Definition show_verr (e : verr) : bytes :=
   | SurjectionProofMissing i => "SurjectionProofMissing:"%lb ++ show_nat i
   | SpentTxOutError i e => "SpentTxOutError:"%lb ++ show_nat i ++ ":"%lb ++ show_txout_err e
   | TxOutError i e => "TxOutError:"%lb ++ show_nat i ++ ":"%lb ++ show_txout_err e
+  | IssuanceTransactionInput i => "IssuanceTransactionInput:"%lb ++ show_nat i
   | UtxoInputLenMismatch => "UtxoInputLenMismatch"%lb
   | BalanceCheckFailed => "BalanceCheckFailed"%lb
   end.
